@@ -59,4 +59,48 @@ __CPROVER_ensures ((V_SAMEEXP (u, v) && g_hd >= 0) ==> (V_CU (u, v, g_hd) != V_C
 __CPROVER_ensures ((V_SAMEEXP (u, v) && g_hd < gj && gj < V_M (u, v)) ==> V_CU (u, v, gj) == V_CV (u, v, gj))
 /* common part equal: the operand with further (non-zero) low limbs is larger in magnitude */
 __CPROVER_ensures ((V_SAMEEXP (u, v) && g_hd == -1) ==> V_SGN3 (__CPROVER_return_value) == ((V_UN (u) - g_zu) > (V_UN (v) - g_zv) ? V_USGN (u) : ((V_UN (u) - g_zu) < (V_UN (v) - g_zv) ? -V_USGN (u) : 0)));
+
+/* ---- conversions / predicates on the stored value.  For exponent 1 the integer part is the top limb; exponent >= 2 means
+   |f| >= 2^64; exponent <= 0 means |f| < 1 (truncates to 0). */
+#define V_FTOP(f)  V_PTR (f)[V_ABSIZ (f) - (V_SIZ (f) != 0)]
+#define V_MPF_SET(fn, T) void fn (mpf_ptr f, T val) \
+__CPROVER_requires (V_WFF (f)) \
+__CPROVER_assigns (f->_mp_size, f->_mp_exp, __CPROVER_object_upto (V_PTR (f), 8)) \
+__CPROVER_ensures (V_WFF (f) && V_ABSIZ (f) <= 1 && V_EXP (f) == V_ABSIZ (f)) \
+__CPROVER_ensures ((V_i128) (V_SIZ (f) < 0 ? -(V_i128) V_PTR (f)[0] : (V_SIZ (f) > 0 ? (V_i128) V_PTR (f)[0] : 0)) == (V_i128) val)
+V_MPF_SET (__gmpf_set_ui, mpir_ui);
+V_MPF_SET (__gmpf_set_si, mpir_si);
+
+#define V_MPF_FITS_U(fn, MAXV) int fn (mpf_srcptr f) \
+__CPROVER_requires (V_WFF (f)) __CPROVER_assigns () \
+__CPROVER_ensures ((__CPROVER_return_value != 0) == (V_SIZ (f) == 0 || V_EXP (f) < 1 || (V_SIZ (f) > 0 && V_EXP (f) == 1 && V_FTOP (f) <= (V_limb) (MAXV))))
+#define V_MPF_FITS_S(fn, MAXV, NEGMIN) int fn (mpf_srcptr f) \
+__CPROVER_requires (V_WFF (f)) __CPROVER_assigns () \
+__CPROVER_ensures ((__CPROVER_return_value != 0) == (V_SIZ (f) == 0 || V_EXP (f) < 1 || (V_EXP (f) == 1 && V_FTOP (f) <= (V_SIZ (f) > 0 ? (V_limb) (MAXV) : (V_limb) (NEGMIN)))))
+V_MPF_FITS_U (__gmpf_fits_ulong_p, ~0UL);
+V_MPF_FITS_U (__gmpf_fits_uint_p, ~0U);
+V_MPF_FITS_U (__gmpf_fits_ushort_p, 0xffff);
+V_MPF_FITS_S (__gmpf_fits_slong_p, 0x7fffffffffffffffUL, 0x8000000000000000UL);
+V_MPF_FITS_S (__gmpf_fits_sint_p, 0x7fffffffUL, 0x80000000UL);
+V_MPF_FITS_S (__gmpf_fits_sshort_p, 0x7fffUL, 0x8000UL);
+
+/* get_si: integer part truncated toward zero when it fits a long */
+mpir_si __gmpf_get_si (mpf_srcptr f)
+__CPROVER_requires (V_WFF (f)) __CPROVER_assigns ()
+__CPROVER_ensures (V_EXP (f) <= 0 ==> __CPROVER_return_value == 0)
+__CPROVER_ensures ((V_EXP (f) == 1 && V_SIZ (f) > 0 && V_FTOP (f) <= 0x7fffffffffffffffUL) ==> __CPROVER_return_value == (mpir_si) V_FTOP (f))
+__CPROVER_ensures ((V_EXP (f) == 1 && V_SIZ (f) < 0 && V_FTOP (f) <= 0x8000000000000000UL) ==> (V_i128) __CPROVER_return_value == -(V_i128) V_FTOP (f));
+
+/* cmp_ui: sign of f - v.  In the equal-integer-part case the fraction limbs decide: g_hd = index of a non-zero one (ret 1), all zero at gj (ret 0) */
+int __gmpf_cmp_ui (mpf_srcptr u, mpir_ui v)
+__CPROVER_requires (V_WFF (u) && 0 <= gj && gj <= V_NMAX)
+__CPROVER_assigns (g_hd)
+__CPROVER_ensures (V_SIZ (u) < 0 ==> __CPROVER_return_value < 0)
+__CPROVER_ensures ((V_SIZ (u) >= 0 && v == 0) ==> V_SGN3 (__CPROVER_return_value) == (V_SIZ (u) != 0))
+__CPROVER_ensures ((V_SIZ (u) >= 0 && v != 0 && V_EXP (u) > 1) ==> __CPROVER_return_value > 0)
+__CPROVER_ensures ((V_SIZ (u) >= 0 && v != 0 && V_EXP (u) < 1) ==> __CPROVER_return_value < 0)
+__CPROVER_ensures ((V_SIZ (u) > 0 && v != 0 && V_EXP (u) == 1 && V_FTOP (u) != v) ==> V_SGN3 (__CPROVER_return_value) == (V_FTOP (u) > v ? 1 : -1))
+__CPROVER_ensures ((V_SIZ (u) > 0 && v != 0 && V_EXP (u) == 1 && V_FTOP (u) == v) ==> (__CPROVER_return_value == 0 || __CPROVER_return_value == 1))
+__CPROVER_ensures ((V_SIZ (u) > 0 && v != 0 && V_EXP (u) == 1 && V_FTOP (u) == v && __CPROVER_return_value == 0 && gj < V_ABSIZ (u) - 1) ==> V_PTR (u)[gj] == 0)
+__CPROVER_ensures ((V_SIZ (u) > 0 && v != 0 && V_EXP (u) == 1 && V_FTOP (u) == v && __CPROVER_return_value == 1) ==> (0 <= g_hd && g_hd < V_ABSIZ (u) - 1 && V_PTR (u)[g_hd] != 0));
 #endif
